@@ -327,7 +327,7 @@ package internal
 //@   ensures ns(now) >= ns(old(now))
 //@   ensures mapUpdated(resp.Header, "Age", get(resp.Header, "Age"))                                         # name: only-age-changes
 //@   ensures len(get(resp.Header, "Age")) == 1                                                               # name: replaces
-//@   ensures hget(resp.Header, "Age") == itoa(secsOf(satadd(age.Value, max(tsub(now, age.Timestamp), 0))))  # name: value-saturating
+//@   ensures hget(resp.Header, "Age") == itoa(secsOf(satadd(max(age.Value, 0), max(tsub(now, age.Timestamp), 0))))  # name: value-saturating
 
 //@ spec func statusHdr() string = "X-Httpcache-Status"
 //@ spec func legacyHdr() string = "X-From-Cache"
@@ -354,16 +354,6 @@ package internal
 //@   ensures (result0 != nil && result0.Header != nil && result1 == nil) || (result0 == nil && result1 != nil)
 //@   ensures result0 != nil ==> fresh(result0) && fresh(result0.Header) && lastUpstreamStatus == result0.StatusCode
 //@   ensures lastUpstreamFailed == (result1 != nil)
-
-//@ iface ValidationResponseHandler.HandleValidationResponse(h, ctx, req, resp, err)
-//@   requires req != nil && ctx.Stored != nil && ctx.Stored.Data != nil && ctx.Stored.Data.Header != nil
-//@   requires ctx.Freshness != nil && ctx.Freshness.Age != nil
-//@   requires (resp != nil && resp.Header != nil && err == nil) || (resp == nil && err != nil)
-//@   assigns *
-//@   ensures upstreamCalls == old(upstreamCalls)
-//@   ensures (result0 != nil) != (result1 != nil)
-//@   ensures result1 != nil ==> result1 == err
-//@   ensures result0 != nil ==> result0 == ctx.Stored.Data || result0 == resp
 
 // ---- collaborator interfaces of the transport ---------------------------------------
 // `store` is the abstract content of the backing store (refined by C06/C08/C14 contracts).
@@ -423,3 +413,74 @@ package internal
 //@   requires h != nil
 //@   assigns map(h)
 //@   ensures validHTTPTime(old(hget(h, "Date"))) && ns(httpTime(old(hget(h, "Date")))) != 0 ==> mapUnchanged(h) && !result     # name: valid-date-kept
+
+// ---- C13: stale-if-error --------------------------------------------------------------
+// age of the stored response at clock reading t, from a Freshness value
+//@ spec func fAge(f *Freshness, t time.Time) time.Duration = satadd(max(f.Age.Value, 0), max(tsub(t, f.Age.Timestamp), 0))
+// within the window (soundness: boundary equality left free) / comfortably within it (completeness: one second of slack)
+//@ spec func sieWithin(age time.Duration, life time.Duration, n time.Duration) bool = satsub(age, max(life, 0)) <= n
+//@ spec func sieWellWithin(age time.Duration, life time.Duration, n time.Duration) bool = age < maxI64 - sec && satsub(age + sec, max(life, 0)) < n
+//@ spec func sieSource(i StaleIfErrorer) bool = typeis(i, CCResponseDirectives) || typeis(i, CCRequestDirectives)
+//@ spec func sieValidI(i StaleIfErrorer) bool = ite(typeis(i, CCResponseDirectives), ccValid(as(i, CCResponseDirectives), "stale-if-error"), ccValid(as(i, CCRequestDirectives), "stale-if-error"))
+//@ spec func sieDurI(i StaleIfErrorer) time.Duration = ite(typeis(i, CCResponseDirectives), ccDur(as(i, CCResponseDirectives), "stale-if-error"), ccDur(as(i, CCRequestDirectives), "stale-if-error"))
+
+// Dynamic dispatch over the two directive maps; follows from the (verified) contracts
+// of (CCRequestDirectives).StaleIfError and (CCResponseDirectives).StaleIfError.
+//@ iface StaleIfErrorer.StaleIfError(recv)
+//@   trusted
+//@   pure
+//@   requires sieSource(recv)
+//@   ensures valid == sieValidI(recv) && (valid ==> dur == sieDurI(recv)) && (!valid ==> dur == 0)
+
+//@ iface StaleIfErrorPolicy.CanStaleOnError(p, freshness, sies)
+//@   property C13
+//@   requires freshness != nil && freshness.Age != nil
+//@   requires forall j int :: 0 <= j && j < len(sies) ==> sies[j] == nil || sieSource(sies[j])
+//@   assigns now
+//@   ensures ns(now) >= ns(old(now))                                                                                             # name: clock-monotone
+//@   ensures result ==> exists j int :: 0 <= j && j < len(sies) && sies[j] != nil && sieValidI(sies[j]) && sieWithin(fAge(freshness, old(now)), freshness.UsefulLife, sieDurI(sies[j]))       # name: only-within-window
+//@   ensures (exists j int :: 0 <= j && j < len(sies) && sies[j] != nil && sieValidI(sies[j]) && sieWellWithin(fAge(freshness, now), freshness.UsefulLife, sieDurI(sies[j]))) ==> result   # name: within-window-is-allowed
+
+//@ func (*staleIfErrorPolicy).CanStaleOnError
+//@   implements StaleIfErrorPolicy.CanStaleOnError
+//@   requires cce != nil && cce.clock != nil
+//@   loop 0 invariant -1 <= rangeindex && rangeindex < len(sies) && ns(now) >= ns(old(now))
+//@   loop 0 invariant forall j int :: 0 <= j && j <= rangeindex && sies[j] != nil && sieValidI(sies[j]) ==> !sieWellWithin(fAge(freshness, now), freshness.UsefulLife, sieDurI(sies[j]))
+
+//@ iface ValidationResponseHandler.HandleValidationResponse(h, ctx, req, resp, err)
+//@   property C02 C13 C10
+//@   requires req != nil && req.URL != nil && ctx.Stored != nil && ctx.Stored.Data != nil && ctx.Stored.Data.Header != nil
+//@   requires ctx.Freshness != nil && ctx.Freshness.Age != nil
+//@   requires (resp != nil && resp.Header != nil && err == nil) || (resp == nil && err != nil)
+//@   requires resp == nil || (resp != ctx.Stored.Data && resp.Header != ctx.Stored.Data.Header)
+//@   let ts = old(ccText(ctx.Stored.Data.Header))
+//@   let hs = dirsHas(ts)
+//@   let vs = dirsVal(ts)
+//@   let hq = old(hasArr(ctx.CCReq))
+//@   let vq = old(valArr(ctx.CCReq))
+//@   let isGet = req.Method == "GET"
+//@   let failed = err != nil || (resp.StatusCode == 500 || resp.StatusCode == 502 || resp.StatusCode == 503 || resp.StatusCode == 504)
+//@   let blocked = hs["must-revalidate"] || unqualNoCacheA(hs, vs) || hq["no-cache"]
+//@   let life = old(ctx.Freshness.UsefulLife)
+//@   let ageIn = old(fAge(ctx.Freshness, now))
+//@   let ageOut = old(satadd(max(ctx.Freshness.Age.Value, 0), max(tsub(now, ctx.Freshness.Age.Timestamp), 0)))
+//@   assigns *
+//@   ensures upstreamCalls == old(upstreamCalls)                                                   # name: no-upstream
+//@   ensures (result0 != nil) != (result1 != nil)                                                  # name: result-shape   props: C10
+//@   ensures result1 != nil ==> result1 == err                                                     # name: error-is-origin-error   props: C10
+//@   ensures result0 != nil ==> result0 == old(ctx.Stored.Data) || result0 == resp                 # name: stored-or-origin-reply
+//@   ensures result0 == old(ctx.Stored.Data) ==> isGet && ((err == nil && resp.StatusCode == 304) || (failed && !blocked && ((ccValidA(hs, vs, "stale-if-error") && sieWithin(ageIn, life, ccDurA(vs, "stale-if-error"))) || (ccValidA(hq, vq, "stale-if-error") && sieWithin(ageIn, life, ccDurA(vq, "stale-if-error"))))))   # name: stored-only-after-304-or-stale-if-error   props: C02 C13
+
+//@ func (*validationResponseHandler).HandleValidationResponse
+//@   implements ValidationResponseHandler.HandleValidationResponse
+//@   requires r != nil && r.l != nil && r.clock != nil && r.ci != nil && r.ce != nil && r.siep != nil && r.rs != nil
+
+//@ func updateStoredHeaders
+//@   property C08
+//@   requires storedResp != nil && storedResp.Header != nil && resp != nil
+//@   assigns map(storedResp.Header)
+
+//@ func (RevalidationContext).ToMisc
+//@   trusted
+//@   pure
+//@   ensures result != nil
